@@ -27,6 +27,20 @@ def check(run):
             if backend == "pm":
                 s = [l for l in s if not pm_defect_shape(l)]
             seqs.append(s)
+        # directed: every dispatch arm of the batch update that stays outside the open C08 shapes, on occupied positions
+        # (removal-only with ONE index, leaves-only, both empty), each followed by `empty`
+        for depth in ([2, 3, 4] if quick else [2, 3, 4, 5, 6, 10]):
+            cap = 1 << depth
+            fill = min(cap, 24)
+            s = [f"tree new {backend} {depth}", "range 0x0 " + treegen.vlist([rng.randint(1, 1 << 30) for _ in range(fill)]), "empty", "next"]
+            for i in rng.sample(range(fill), min(fill, 4)) + [0, fill - 1]:
+                s += [f"batch 0x0 - {hex(i)}", "empty", "next", f"get {hex(i)}"]
+                if rng.random() < 0.5:
+                    s += [f"batch {hex(i)} {hex(rng.randint(1, 99))} -", "empty"]
+                if rng.random() < 0.3:
+                    s += [f"batch {hex(rng.randrange(cap))} - {hex(i)}", "empty"]     # the start position is irrelevant for a removal-only batch
+            s += ["batch 0x0 - -", "empty", "root"]
+            seqs.append(s)
         run.differential(f"empty-{backend}", seqs)
     # persistent backend: close / reopen (open finding C15-pm-reopen-flags: the flag cache is not persisted)
     seqs = []
@@ -42,6 +56,6 @@ def check(run):
             return "C15-pm-reopen-flags"
         return None
     run.differential("empty-pm-reopen", seqs, classify=classify_reopen)
-    run.rules.append("random histories over every mutator (single write, append, delete, range write, batch update outside the open C08 shapes) on each backend, depths 2..8 and 10/16/20; `empty` and the high-water mark observed after every op; persistent backend additionally across close/reopen; distinct = distinct op sequence")
+    run.rules.append("random histories over every mutator (single write, append, delete, range write, batch update outside the open C08 shapes) on each backend, depths 2..8 and 10/16/20; `empty` and the high-water mark observed after every op; directed sequences through every batch-update dispatch arm (one removal only, leaves only, nothing) on occupied positions; persistent backend additionally across close/reopen; distinct = distinct op sequence")
 
     run.confirm_witnesses()
